@@ -62,6 +62,24 @@ func c01Case(c *engine.Ctx, r universe.Recipe, entry string) {
 		}
 		ds := canon.Diff(want, got)
 		if len(ds) == 0 {
+			// language lists come back in the order they were stored (lists of two or more entries are sent round 8 times:
+			// an order that depends on Go's map iteration differs only now and then)
+			if canon.HasMultiLang(want) {
+				for round := 0; round < 8; round++ {
+					if round > 0 {
+						b, _ = jsonEncode(entry, x)
+						y, err = jsonDecode(entry, r.Struct.Type, b)
+						if err != nil {
+							break
+						}
+						got = canon.Of(y, canon.JSON)
+					}
+					if where := canon.OrderDiff(want, got); where != "" {
+						t.Fail("C01|json-rt|"+r.Struct.Name+"|"+canon.LastTerm(where)+"|lang-order-changed", "the entries of %s came back in another order (round %d) via %s entry\njson: %s", where, round, entry, b)
+						break
+					}
+				}
+			}
 			t.Outcome("round-trips")
 			return
 		}
